@@ -433,7 +433,11 @@ def string_escape(ctx):
         reports.error,
         "invalid-escape",
         (ctx_start, ctx, "A letter is expected after a backslash '\\' in a string")
-    )).lower()
+    ))
+    if char is None:
+        # A backslash at the very end of the file; already reported
+        return ""
+    char = char.lower()
 
     if char == "n":
         return "\n"
@@ -451,6 +455,9 @@ def string_escape(ctx):
             "invalid-escape",
             (ctx_start, ctx, "Two hexadecimal digits are expected after '\\x' in a string")
         ))
+        if num is None:
+            # Already reported
+            return ""
         return chr(int(num, 16))
     else:
         reports.error(
